@@ -104,4 +104,12 @@ theorem handoff_inv (es : List (Option Nat × Nat)) :
         · have := ih 2 (hsStep ⟨2, 1, v⟩ none r) [] (by left; simp [hsStep, hr0]) (by simpa [hr0] using hk)
           simp [hsDelivered, optCons, hr0, this]
 
+theorem feOfDes_eq (d : DesN) (sample : Nat) : feOfDes d.toDes sample = feOf d sample := by
+  obtain ⟨st, cnt, stv, temp, desync, v, valid⟩ := d
+  have i2 : ((st:Int) = 2) = (st = 2) := by simp; omega
+  have i8 : ((cnt:Int) = 8) = (cnt = 8) := by simp; omega
+  have hm : ((temp:Int) % 256).toNat = temp % 256 := by omega
+  simp only [feOfDes, feOf, DesN.toDes, i2, i8, hm]
+
+
 end C17
